@@ -345,7 +345,13 @@ func (b *GRPCBroker) Accept(id uint32) (net.Listener, error) {
 				defer b.Unlock()
 
 				// No longer need to listen for knocks once the listener is closed.
-				delete(b.serverStreams, id)
+				// Only this listener's own entry, though: the ID may have been
+				// accepted again since, and a second Close of this listener (a
+				// deferred Close after the server on it was stopped, say) must
+				// not take the new listener's entry away.
+				if b.serverStreams[id] == p {
+					delete(b.serverStreams, id)
+				}
 
 				return nil
 			},
